@@ -8,7 +8,7 @@ Open Scope N_scope.
 Theorem C13_name_priority :
   forall (delim : str) (ocs : list octx) (name : str),
          option_by_name delim ocs name = best_match delim ocs name.
-Proof. exact C13_priority. Qed.
+Proof. exact @C13_priority. Qed.
 Print Assumptions C13_name_priority.
 
 (* an entry is applied by the very Option.Set a flag goes through; its error is wrapped with the entry's line *)
@@ -34,6 +34,69 @@ Theorem C13_same_set_path_as_flags :
          | Err er => result = Err er
          | Panic w => result = Panic w
          end.
-Proof. exact C13_same_set_path. Qed.
+Proof. exact @C13_same_set_path. Qed.
 Print Assumptions C13_same_set_path_as_flags.
+
+(* ---- added by bin/mkprops (batch 2) ---- *)
+From GoFlags Require Import Base.Str Base.Utf8 Golib.Strings Golib.Strconv Model.Types Model.Tag Model.Scan Model.Lookup Model.Convert Model.State Model.Closest Model.Help Model.Parse Model.Ini Model.Complete.
+From GoFlags Require Import Proofs.IniPanicSpec.
+
+Theorem C13_section_resolution_eq :
+  forall (root : command) (name : str),
+         matching_groups root name =
+         match name with
+         | [] => cmd_group_refs root
+         | _ :: _ => match section_group root name with
+                     | Some g => [g]
+                     | None => []
+                     end
+         end.
+Proof. exact @C13_section_resolution. Qed.
+Print Assumptions C13_section_resolution_eq.
+
+(* entries before any section header address all of the parser's own groups *)
+Theorem C13_global_section_all_groups :
+  forall root : command,
+         matching_groups root [] = cmd_group_refs root /\
+         (exists rest : list gref, cmd_group_refs root = own_gref root :: rest).
+Proof. exact @C13_section_global. Qed.
+Print Assumptions C13_global_section_all_groups.
+
+(* a section names a group by its description, case-insensitively (last match, as Group.Find) *)
+Theorem C13_section_by_group_description :
+  forall (root : command) (name : list N) (pre : list gref) (g : gref) (post : list gref),
+         name <> [] ->
+         tl (cmd_group_refs root) = pre ++ g :: post ->
+         desc_matches name g = true ->
+         (forall g' : gref, In g' post -> desc_matches name g' = false) ->
+         group_find root name = Some g /\ matching_groups root name = [g].
+Proof. exact @C13_section_by_description. Qed.
+Print Assumptions C13_section_by_group_description.
+
+Theorem C13_section_by_command_name :
+  forall (root : command) (name : list N) (pre : list command) (sc : command) (post : list command),
+         name <> [] ->
+         group_find root name = None ->
+         cmd_subs root = pre ++ sc :: post ->
+         (forall sc' : command, In sc' pre -> sub_passes name sc') ->
+         name = c_name (cmd_info sc) -> matching_groups root name = [own_gref sc].
+Proof. exact @C13_section_command. Qed.
+Print Assumptions C13_section_by_command_name.
+
+Theorem C13_section_by_command_path :
+  forall (root : command) (pre : list command) (sc : command) (post : list command) (rest : list N),
+         let name := c_name (cmd_info sc) ++ [46] ++ rest in
+         group_find root name = None ->
+         cmd_subs root = pre ++ sc :: post ->
+         (forall sc' : command, In sc' pre -> sub_passes name sc') ->
+         matching_groups root name =
+         match section_group sc rest with
+         | Some g => [g]
+         | None => match subs_lookup section_group name post with
+                   | Some g => [g]
+                   | None => []
+                   end
+         end.
+Proof. exact @C13_section_command_path. Qed.
+Print Assumptions C13_section_by_command_path.
 
